@@ -15,9 +15,6 @@ pub fn like<A: EncodeLike<B>, B: Encode + Decode + Spec, const N: usize>(a: &A, 
 	assert!(same_bytes(&ba, &bb), "a type declared EncodeLike<B> does not produce B's bytes");
 	// every entry point of A describes the same bytes (a consumer of `EncodeLike<B>` may use any of them)
 	assert!(a.using_encoded(|s| same_slice(s, bb.bytes())), "using_encoded of a type declared EncodeLike<B> does not produce B's bytes");
-	let owned = a.encode();
-	assert!(same_slice(&owned, bb.bytes()), "encode() of a type declared EncodeLike<B> does not produce B's bytes");
-	core::mem::forget(owned);
 	let mut inp = ba.bytes();
 	match B::decode(&mut inp) {
 		Ok(d) => { assert!(d.same(b) && inp.is_empty(), "bytes of an EncodeLike<B> value decode to a different B"); core::mem::forget(d); },
